@@ -59,6 +59,9 @@ func (lk AATLoopkup4) Class(g GlyphID) (uint16, bool) {
 		} else if entry.LastGlyph < g {
 			i = h + 1
 		} else {
+			if int(g-entry.FirstGlyph) >= len(entry.Values) { // null offset to the values
+				return 0, false
+			}
 			return entry.Values[g-entry.FirstGlyph], true
 		}
 	}
@@ -145,6 +148,9 @@ func (lk AATLoopkupExt4) Class(g GlyphID) (uint32, bool) {
 		} else if entry.LastGlyph < g {
 			i = h + 1
 		} else {
+			if int(g-entry.FirstGlyph) >= len(entry.Values) { // null offset to the values
+				return 0, false
+			}
 			return entry.Values[g-entry.FirstGlyph], true
 		}
 	}
